@@ -572,6 +572,18 @@ func (propC02) Gen(seed uint64, tier string, idx int) any {
 	p.WF = GenWriteFault(r, 20, approx)
 	p.RP = GenReadPlan(r, 3, approx)
 	genSecond(r, p, p.Opt.Lossless)
+	if tier == "thorough" && idx%500000 == 4321 {
+		// about 32 megapixels of noise: the mode partition of such a picture comes close to
+		// or exceeds the 19 bits the frame tag has for its size (and the token partitions
+		// approach their 24 bits). Encode must fail or write a decodable file.
+		side := r.Range(5500, 5800)
+		p.Img = ImgSpec{Family: "noise", W: side, H: side, Seed: r.Next(), Alpha: "opaque", Type: "nrgba"}
+		p.Opt = defaultOptSpec()
+		p.Opt.Method, p.Opt.Partitions = r.Pick(3, 4), r.Pick(0, 0, 3)
+		p.Prior, p.Second, p.WF = nil, nil, WriteFault{}
+		p.RP = ReadPlan{Mode: "whole", HasLen: true, ErrAt: -1}
+		p.Sched = SchedSpec{Seed: r.Next(), Policy: vsim.PolCanonical, Procs: r.Pick(1, 4)}
+	}
 	return p
 }
 
